@@ -604,6 +604,8 @@ Definition check (c : sexp) : sexp :=
               let is_linked := match link_doc d0 with Some _ => true | None => false end in
               if valid && negb is_linked then v_bad "valid-document-does-not-link"
               else if valid && decl_safe Sch d && excl_decl_clash Sch d then v_bad "decl-safe-does-not-exclude-clash"
+              else if valid && env Sch d && schema_loadable Sch && no_sel_names Sch d && no_digit_types Sch && lex_names Sch d
+                      && excl_decl_clash_s Sch d then v_bad "decl-residue-does-not-exclude-clash"
               else
               let D := match field1 "deprecations" l with Some (SL dl) => dec_deprecations dl | _ => {| dep_fields := []; dep_values := [] |} end in
               let m := generate_real D Sch valid d in
@@ -666,6 +668,7 @@ Definition check (c : sexp) : sexp :=
                                       v_ok (["valid"; "generated"] ++
                                             (if in_env then ["in-envelope"] else ["outside-envelope"]) ++
                                             (if decl_safe Sch d then ["decl-safe"] else ["decl-unsafe-by-names"]) ++
+                                            (if no_sel_names Sch d && no_digit_types Sch && lex_names Sch d then ["decl-residue-free"] else ["decl-residue"]) ++
                                             (if excl_member_clash Sch d then ["member-names-suffixed"] else []) ++
                                             (if excl_decl_clash Sch d then ["declaration-names-suffixed"] else []) ++
                                             (match dep_fields D with [] => [] | _ => ["deprecated-fields"] end) ++
